@@ -134,7 +134,8 @@ Section Fn.
         | _ => Some (if Nat.eqb succ eqS then exp [] x yn else match yn with NNon => [] | _ => exp [] x (negate yn) end)
         end
       | _, _ =>
-        if (nn_eqb xn yn && Nat.eqb succ eqS) || (negb (nn_eqb xn yn) && Nat.eqb succ neS) then Some [] else None
+        (* the not-equal edge is unreachable only when both operands are nil (repair of finding F45) *)
+        if (nn_eqb xn yn && Nat.eqb succ eqS) || (negb (nn_eqb xn NNil && nn_eqb yn NNil) && Nat.eqb succ neS) then Some [] else None
       end
     end.
 
@@ -212,30 +213,31 @@ Section Fn.
     flat_map (fun ib => match ib_ret (snd ib) with Some v => [(fst ib, v)] | None => [] end)
              (combine (seq 0 (length (if_blocks F))) (if_blocks F)).
 
-  Record tally := { t_nonunk : nat; t_nilp : nat; t_nonret : nat; t_total : nat; t_bad : bool }.
+  (* the tables of a block, or the table that knows nothing when the block has none *)
+  Definition tables_or_top (sets0 : list (nat * list table)) (b : nat) : list table :=
+    match aget sets0 b with Some (x :: l) => x :: l | _ => [[]] end.
+
+  (* one (return block, table) pair as deriveContracts looks at it: nilness of the parameter and of the returned value *)
+  Definition ret_checks (sets0 : list (nat * list table)) : list (nn * nn * nat) :=
+    flat_map (fun bv => map (fun t => (nof t (if_param F), nof t (snd bv), snd bv)) (tables_or_top sets0 (fst bv))) ret_blocks.
+
+  (* a counterexample to nonnil -> nonnil: parameter not known nil, result not known non-nil, and not `return param` *)
+  Definition counterex (c : nn * nn * nat) : bool :=
+    let '(pn, rn, ret) := c in
+    match pn with
+    | NNil => false
+    | _ => negb (nn_eqb rn NNon || (nn_eqb pn NUnk && nn_eqb rn NUnk && Nat.eqb (if_param F) ret))
+    end.
 
   Definition derive (sets0 : list (nat * list table)) : bool :=
-    let param := if_param F in
-    let tl := fold_left (fun (acc : tally) (bv : nat * nat) =>
-        let '(b, ret) := bv in
-        let tables := match aget sets0 b with Some (x :: l) => x :: l | _ => [[]] end in
-        fold_left (fun (a : tally) t =>
-          if t_bad a then a else
-          let pn := nof t param in
-          let rn := nof t ret in
-          let a1 := {| t_nonunk := t_nonunk a; t_nilp := t_nilp a; t_nonret := (if nn_eqb rn NNon then S (t_nonret a) else t_nonret a);
-                       t_total := S (t_total a); t_bad := false |} in
-          match pn with
-          | NNil => {| t_nonunk := t_nonunk a1; t_nilp := S (t_nilp a1); t_nonret := t_nonret a1; t_total := t_total a1; t_bad := false |}
-          | _ =>
-            let a2 := {| t_nonunk := S (t_nonunk a1); t_nilp := t_nilp a1; t_nonret := t_nonret a1; t_total := t_total a1; t_bad := false |} in
-            if nn_eqb rn NNon || (nn_eqb pn NUnk && nn_eqb rn NUnk && Nat.eqb param ret) then a2
-            else {| t_nonunk := t_nonunk a2; t_nilp := t_nilp a2; t_nonret := t_nonret a2; t_total := t_total a2; t_bad := true |}
-          end) tables acc)
-      ret_blocks {| t_nonunk := 0; t_nilp := 0; t_nonret := 0; t_total := 0; t_bad := false |} in
-    if t_bad tl then false
-    else if (Nat.eqb (t_nilp tl) (t_total tl) && Nat.eqb (t_nonunk tl) 0) || Nat.eqb (t_nonret tl) (t_total tl) then false
-    else true.
+    let cs := ret_checks sets0 in
+    if existsb counterex cs then false
+    else
+      let total := length cs in
+      let nilp := length (filter (fun c => nn_eqb (fst (fst c)) NNil) cs) in
+      let nonret := length (filter (fun c => nn_eqb (snd (fst c)) NNon) cs) in
+      (* the useless cases: the parameter is nil on every path, or the result is non-nil on every path *)
+      if Nat.eqb nilp total || Nat.eqb nonret total then false else true.
 
   Inductive verdict := IInferred | INotInferred | INoFuel.
 
